@@ -414,3 +414,8 @@ func c14RunWrite(p *c14Plan, schedSeed uint64, replay []simrt.Choice, lenient, k
 	v.Sample = map[string]interface{}{"kind": "write", "req_len": p.ReqLen, "j": p.J, "accept": p.Accept, "send_err": fmt.Sprint(sendErr)}
 	return v, out
 }
+
+// RequiredProbes: a batch in which one of these never fired explored nothing of that kind (exit 2, not a pass).
+func (c14) RequiredProbes() []string {
+	return []string{"kind:eof", "kind:eof-with-data", "kind:reset", "kind:timeout", "kind:write"}
+}
